@@ -67,7 +67,7 @@ def bounded(pb, interp, rng, tier):
     ev, fails, samples, distinct = 0, [], [], set()
 
     def fail(fn, what, inst, detail):
-        if len(fails) < 40:
+        if sum(1 for f_ in fails if f_["what"] == what) < 8:      # cap per kind: a known finding must not crowd out a new failure
             fails.append({"function": f"pulsarbat.pulsar.phase.{fn}", "what": what, "instance": inst, "inputs": {"case": inst}, "observed": detail, "status": "mismatch"})
 
     def check(fn, what, inst, thunk, want, tol=EPS, imaginary=False):
